@@ -60,76 +60,94 @@ def localOf (b : Build) : Mode → List Nat → Int
   | .m6531, l => is6531Local b.l l
 
 /-- `check_tld()` on the ASCII domain `d` (terminated by NUL) -/
-def checkTld (d : List Nat) (tld : Bool) : Except Fault Int := do
-  if !tld then return 0
-  if (← isSpecialDomain d) then return (T.SPECIAL : Int)
-  match splitLast 46 d with
-  | none => return -(E.DOMAIN_NOT_FQDN : Int)
-  | some (_, last) => return isTld last
+def checkTld (d : List Nat) (tld : Bool) : Except Fault Int :=
+  if !tld then .ok 0
+  else match isSpecialDomain d with
+    | .error e => .error e
+    | .ok true => .ok (T.SPECIAL : Int)
+    | .ok false =>
+      match splitLast 46 d with
+      | none => .ok (-(E.DOMAIN_NOT_FQDN : Int))
+      | some (_, last) => .ok (isTld last)
 
 def tagIPv6 : List Nat := [73, 80, 118, 54, 58]   -- "IPv6:"
 
+/-- outcome of the address test of `check_ip()` -/
+def ipVerdict (ok : Except Fault Bool) (v4 v6 : Bool) (inner : List Nat) : Except Fault (Int × Bool × Bool × List Nat) :=
+  match ok with
+  | .error e => .error e
+  | .ok true => .ok (0, v4, v6, inner)
+  | .ok false => .ok (-(E.IPADDR_INVALID : Int), false, false, [])
+
 /-- `check_ip()`: `d` is the domain part starting with `[`.  Returns (rc, is_ipv4, is_ipv6, literal). -/
-def checkIp (d : List Nat) : Except Fault (Int × Bool × Bool × List Nat) := do
-  if d.length ≤ 8 then return (-(E.IPADDR_INVALID : Int), false, false, [])
-  match splitLast 93 d with
-  | none => return (-(E.IPADDR_BRACKET_UNPAIR : Int), false, false, [])
-  | some (pre, post) =>
-    if !post.isEmpty then return (-(E.IPADDR_INVALID : Int), false, false, [])
-    let inner := pre.drop 1                       -- `[brs + 1, bre)`
-    if strncaseeq (d.drop 1) tagIPv6 5 then
-      if (← isIpv6 (inner.drop 5) [93, 0]) then return (0, false, true, inner)
-      else return (-(E.IPADDR_INVALID : Int), false, false, [])
-    else if inner.contains 58 then
-      if (← isIpv6 inner [93, 0]) then return (0, false, true, inner)
-      else return (-(E.IPADDR_INVALID : Int), false, false, [])
-    else
-      if (← isIpv4 inner [93, 0]) then return (0, true, false, inner)
-      else return (-(E.IPADDR_INVALID : Int), false, false, [])
+def checkIp (d : List Nat) : Except Fault (Int × Bool × Bool × List Nat) :=
+  if d.length ≤ 8 then .ok (-(E.IPADDR_INVALID : Int), false, false, [])
+  else match splitLast 93 d with
+    | none => .ok (-(E.IPADDR_BRACKET_UNPAIR : Int), false, false, [])
+    | some (pre, post) =>
+      if !post.isEmpty then .ok (-(E.IPADDR_INVALID : Int), false, false, [])
+      else
+        let inner := pre.drop 1                       -- `[brs + 1, bre)`
+        if strncaseeq (d.drop 1) tagIPv6 5 then ipVerdict (isIpv6 (inner.drop 5) [93, 0]) false true inner
+        else if inner.contains 58 then ipVerdict (isIpv6 inner [93, 0]) false true inner
+        else ipVerdict (isIpv4 inner [93, 0]) true false inner
 
 /-- `is_utf8_domain` (libidn2 / libidn back ends).  Returns (rc, idn_rc).
 Allocation ledger: the output buffer is freed iff it is not NULL — see `Api.lean`. -/
-def isUtf8Domain (b : Build) (conv : List Nat → Conv) (d : List Nat) (tld : Bool) : Except Fault (Int × Int) := do
-  if d.isEmpty then return (-(E.DOMAIN_EMPTY : Int), 0)
-  let c := conv d
-  if c.rc != 0 then return (-(E.IDN_ERROR : Int), c.rc)
-  match c.out with
-  | none => .error .oob                  -- success without a buffer: `strlen (NULL)`
-  | some a =>
-    let rc ← isAsciiDomain b.underscore a [0]
-    if rc != 0 then return (rc, c.rc)
-    return (← checkTld a tld, c.rc)
+def isUtf8Domain (b : Build) (conv : List Nat → Conv) (d : List Nat) (tld : Bool) : Except Fault (Int × Int) :=
+  if d.isEmpty then .ok (-(E.DOMAIN_EMPTY : Int), 0)
+  else
+    let c := conv d
+    if c.rc != 0 then .ok (-(E.IDN_ERROR : Int), c.rc)
+    else match c.out with
+      | none => .error .oob                  -- success without a buffer: `strlen (NULL)`
+      | some a =>
+        match isAsciiDomain b.underscore a [0] with
+        | .error e => .error e
+        | .ok rc =>
+          if rc != 0 then .ok (rc, c.rc)
+          else match checkTld a tld with
+            | .error e => .error e
+            | .ok t => .ok (t, c.rc)
 
-def isEmail (b : Build) (conv : List Nat → Conv) (m : Mode) (email : List Nat) (tld : Bool) : Except Fault Result := do
-  -- basic_email_check
-  if email.isEmpty then return { rc := -(E.EMAIL_EMPTY : Int) }
-  match splitLast 64 email with
-  | none => return { rc := -(E.DOMAIN_EMPTY : Int) }
-  | some (l, d) =>
-    if d.isEmpty then return { rc := -(E.DOMAIN_EMPTY : Int) }
-    if l.length > Lim.VALID_LPART_LEN then return { rc := -(E.LPART_TOO_LONG : Int) }
-    let lrc := localOf b m l
-    if lrc != 0 then return { rc := lrc }
-    if d.head? != some 91 then
-      match m with
-      | .m6531 =>
-        let (rc, irc) ← isUtf8Domain b conv d tld
-        if rc ≥ 0 then
-          return { rc := rc, idnRc := irc, isDomain := true,
-                   lpart := if b.extra then some l else none, domain := if b.extra then some d else none }
-        else return { rc := rc, idnRc := irc }
-      | _ =>
-        let rc ← isAsciiDomain b.underscore d [0]
-        if rc == 0 then
-          let t ← checkTld d tld
-          return { rc := t, isDomain := true,
-                   lpart := if b.extra then some l else none, domain := if b.extra then some d else none }
-        else return { rc := rc }
-    else
-      let (rc, v4, v6, lit) ← checkIp d
+/-- the record for an accepted address (`EAV_EXTRA` strings only in such a build) -/
+def okResult (b : Build) (rc irc : Int) (v4 v6 dom : Bool) (l d : List Nat) : Result :=
+  { rc := rc, idnRc := irc, isIpv4 := v4, isIpv6 := v6, isDomain := dom,
+    lpart := if b.extra then some l else none, domain := if b.extra then some d else none }
+
+/-- the non-bracketed domain branch of `is_*_email` -/
+def hostPart (b : Build) (conv : List Nat → Conv) (m : Mode) (l d : List Nat) (tld : Bool) : Except Fault Result :=
+  match m with
+  | .m6531 =>
+    match isUtf8Domain b conv d tld with
+    | .error e => .error e
+    | .ok (rc, irc) => if rc ≥ 0 then .ok (okResult b rc irc false false true l d) else .ok { rc := rc, idnRc := irc }
+  | _ =>
+    match isAsciiDomain b.underscore d [0] with
+    | .error e => .error e
+    | .ok rc =>
       if rc == 0 then
-        return { rc := 0, isIpv4 := v4, isIpv6 := v6,
-                 lpart := if b.extra then some l else none, domain := if b.extra then some lit else none }
-      else return { rc := rc }
+        match checkTld d tld with
+        | .error e => .error e
+        | .ok t => .ok (okResult b t 0 false false true l d)
+      else .ok { rc := rc }
+
+/-- the address-literal branch -/
+def literalPart (b : Build) (l d : List Nat) : Except Fault Result :=
+  match checkIp d with
+  | .error e => .error e
+  | .ok (rc, v4, v6, lit) => if rc == 0 then .ok (okResult b 0 0 v4 v6 false l lit) else .ok { rc := rc }
+
+def isEmail (b : Build) (conv : List Nat → Conv) (m : Mode) (email : List Nat) (tld : Bool) : Except Fault Result :=
+  -- basic_email_check
+  if email.isEmpty then .ok { rc := -(E.EMAIL_EMPTY : Int) }
+  else match splitLast 64 email with
+    | none => .ok { rc := -(E.DOMAIN_EMPTY : Int) }
+    | some (l, d) =>
+      if d.isEmpty then .ok { rc := -(E.DOMAIN_EMPTY : Int) }
+      else if l.length > Lim.VALID_LPART_LEN then .ok { rc := -(E.LPART_TOO_LONG : Int) }
+      else if localOf b m l != 0 then .ok { rc := localOf b m l }
+      else if d.head? != some 91 then hostPart b conv m l d tld
+      else literalPart b l d
 
 end Eav
